@@ -148,14 +148,22 @@ def adjust (x len lo hi : Int) : Int :=
   if x < 0 then (if x + len < lo then lo else x + len)
   else (if x > hi then hi else x)
 
+/-- `slice(a, b, 1).indices(n)[0]` : the start bound clamped into `[0, n]` (`None` ↦ 0, negative counts from the end) -/
+def startOf (n : Nat) (a : Option Int) : Int :=
+  match a with | some x => adjust x n 0 n | none => 0
+
+/-- `slice(a, b, 1).indices(n)[1]` : the stop bound clamped into `[0, n]` (`None` ↦ n) -/
+def stopOf (n : Nat) (b : Option Int) : Int :=
+  match b with | some x => adjust x n 0 n | none => n
+
 /-- indices selected by `slice(a, b, c)` on a sequence of length `n`; ValueError for step 0 -/
 def sliceIndices (n : Nat) (a b c : Option Int) : R (List Nat) :=
   let step : Int := match c with | some s => s | none => 1
   let len : Int := n
   if step = 0 then throw .ValueError
   else if step > 0 then
-    let start := match a with | some x => adjust x len 0 len | none => 0
-    let stop := match b with | some x => adjust x len 0 len | none => len
+    let start := startOf n a
+    let stop := stopOf n b
     let cnt := if stop ≤ start then 0 else ((stop - start + step - 1) / step).toNat
     pure ((List.range cnt).map fun (i : Nat) => (start + step * (i : Int)).toNat)
   else
@@ -173,44 +181,31 @@ def pick (s : Str) : List Nat → Str
 
 /-! ### Sequence.__getitem__ -/
 
-/-- the argument checks at the head of `relative_interval_to_parent_location` when a bound may be `None`
-    (`slice.start` / `slice.stop` are passed through unchanged): comparing an int with `None` is a TypeError.
-    SingleInterval: `if not 0 <= start <= end <= len(self)` (chained, short-circuits);
-    CompoundInterval: `if relative_start > relative_end`. -/
-def relIntervalOpt (l : Location) (a b : Option Int) : R Location :=
-  match l with
-  | .single _ _ =>
-    match a with
-    | none => throw .TypeError                       -- `0 <= None`
-    | some s =>
-      if s < 0 then throw .ValueError                -- chain stops at `0 <= start`
-      else match b with
-        | none => throw .TypeError                   -- `start <= None`
-        | some e => relInterval l s e .plus
-  | .compound _ =>
-    match a, b with
-    | some s, some e => relInterval l s e .plus
-    | _, _ => throw .TypeError                       -- `start > end` with a None
-  | .empty => throw .EmptyLocation
+/-- the parent of `self[key]` once the relative bounds are known:
+    `new_parent = self.parent.reset_location(self.parent.location.relative_interval_to_parent_location(rs, re, PLUS))` -/
+def childPar (par : Par) (l : Location) (rs re : Int) : R Par := do
+  let l' ← relInterval l rs re .plus
+  resetLocation (some l')
 
-/-- the parent of `self[key]` -/
-def childPar (p : Option Par) (a b : Option Int) : R (Option Par) :=
-  match p with
-  | none => pure none
+/-- `Sequence.__getitem__(slice(a, b, c))`.  Text: Python slicing.  When the parent has a location:
+    `rel_start, rel_end, step = key.indices(len(self))`; a step other than 1 is refused (ValueError);
+    `rel_end = max(rel_start, rel_end)` (an empty slice records a zero-length location at `rel_start`). -/
+def getSlice (x : SeqObj) (a b c : Option Int) : R SeqObj := do
+  let n := x.data.length
+  let idx ← sliceIndices n a b c
+  let sub := pick x.data idx
+  match x.par with
+  | none => pure ⟨sub, none⟩
   | some par =>
     match par.loc with
-    | none => pure (some par)                          -- `self.parent.location is None`: parent kept
+    | none => pure ⟨sub, some par⟩                     -- `self.parent.location is None`: parent kept
     | some l => do
-      let l' ← relIntervalOpt l a b
-      let np ← resetLocation (some l')
-      pure (some np)
-
-/-- `Sequence.__getitem__(slice(a, b, c))` — the step is used for the text only -/
-def getSlice (x : SeqObj) (a b c : Option Int) : R SeqObj := do
-  let idx ← sliceIndices x.data.length a b c
-  let sub := pick x.data idx
-  let np ← childPar x.par a b
-  pure ⟨sub, np⟩
+      let step : Int := match c with | some s => s | none => 1
+      if step ≠ 1 then throw .ValueError
+      let rs := startOf n a
+      let re := max rs (stopOf n b)
+      let np ← childPar par l rs re
+      pure ⟨sub, some np⟩
 
 /-- `Sequence.__getitem__(i)` for an int: `Seq.__getitem__` raises IndexError outside `[-n, n)`;
     the location uses `(i, i + 1)` unchanged -/
@@ -219,8 +214,14 @@ def getIndex (x : SeqObj) (i : Int) : R SeqObj := do
   if i < -n ∨ i ≥ n then throw .ValueError          -- IndexError (Python sequence protocol)
   let j := if i < 0 then i + n else i
   let sub := pick x.data [j.toNat]
-  let np ← childPar x.par (some i) (some (i + 1))
-  pure ⟨sub, np⟩
+  match x.par with
+  | none => pure ⟨sub, none⟩
+  | some par =>
+    match par.loc with
+    | none => pure ⟨sub, some par⟩
+    | some l => do
+      let np ← childPar par l i (i + 1)
+      pure ⟨sub, some np⟩
 
 /-! ### Sequence.reverse_complement -/
 
